@@ -47,17 +47,33 @@ pub fn toy_hmac_vec(digest: openssl::hash::MessageDigest, key: &[u8], data: &[u8
     toy_digest(len, key, data)
 }
 
+/// The digest used by the REFERENCE: under the model checker the same stand-in the implementation is given; in a
+/// native replay the real OpenSSL HMAC (the implementation then runs un-stubbed too), so that a counterexample is
+/// confirmed against real crypto.
+#[cfg(not(verif_playback))]
+pub fn ref_digest(len: usize, key: &[u8], data: &[u8]) -> Vec<u8> {
+    toy_digest(len, key, data)
+}
+#[cfg(verif_playback)]
+pub fn ref_digest(len: usize, key: &[u8], data: &[u8]) -> Vec<u8> {
+    let md = if len == 20 { openssl::hash::MessageDigest::sha1() } else { openssl::hash::MessageDigest::sha256() };
+    let pkey = openssl::pkey::PKey::hmac(key).unwrap();
+    let mut signer = openssl::sign::Signer::new(md, &pkey).unwrap();
+    signer.update(data).unwrap();
+    signer.sign_to_vec().unwrap()
+}
+
 /// RFC 5246 P_hash written independently: A(0) = seed, A(i) = H(secret, A(i-1)), out = H(secret, A(1)+seed) + H(secret, A(2)+seed) ...
 pub fn reference_p_hash(dlen: usize, secret: &[u8], seed: &[u8], length: usize) -> Vec<u8> {
     let mut out: Vec<u8> = Vec::with_capacity(length + dlen);
-    let mut a = toy_digest(dlen, secret, seed);
+    let mut a = ref_digest(dlen, secret, seed);
     while out.len() < length {
         let mut msg: Vec<u8> = Vec::with_capacity(dlen + seed.len());
         msg.extend_from_slice(&a);
         msg.extend_from_slice(seed);
-        let block = toy_digest(dlen, secret, &msg);
+        let block = ref_digest(dlen, secret, &msg);
         out.extend_from_slice(&block);
-        a = toy_digest(dlen, secret, &a);
+        a = ref_digest(dlen, secret, &a);
     }
     out.truncate(length);
     out
